@@ -29,15 +29,16 @@ from common import Ctx, Outcome
 DRIVERS = ["Geom"]
 TABLES = False
 LEVEL = "proof"
-RULE = ("kernel: every (box, point, source, style, port) with box corners in {0..N}^2 (proper boxes), point and "
-        "source in {-M..N+M}^2 (quick N=3,M=1; thorough N=4,M=2 complete plus a seeded choice of boxes from the "
-        "N=6,M=2 lattice with its complete point x source grid), plus seeded dyadic-rational structured cases "
-        "(corners, border points, centre, diagonals, axis-aligned, coincident) and generic real-valued cases; "
-        "snap_to_parent, boxsnap, line_intersect, closestaxis, bounds, viewport, Edge.vector_snap, route_* on "
-        "seeded cases; parser: every diagram of every corpus model x seeded integer translation vectors in "
-        "+-10^4 x one moved top-level node.  distinct = distinct input tuple; non-trivial = the point is not "
-        "strictly inside the box with a generic source, i.e. some guard of the code is on its boundary "
-        "(kernel), resp. the diagram has at least one edge or nested box (parser)")
+RULE = ("kernel: every (box, point, source, style, port) with proper boxes having corners in {0..N}^2 and point, source "
+        "in {-M..N+M}^2 - quick N=3, M=1 (233 280 cases); thorough N=4, M=2 complete (3.28 M) plus 16 seeded boxes of the "
+        "N=6, M=2 family with their complete point x source grid (1.17 M) - plus seeded dyadic-rational structured cases "
+        "(corners, border points, centre, aimed through each corner, diagonals, axis-aligned, coincident, source=None), "
+        "binary64 cases in general position and binary64 cases aimed at a corner up to rounding; snap_to_parent, boxsnap, "
+        "line_intersect, closestaxis, bounds, viewport, Edge.vector_snap, route_* on seeded cases; parser: every diagram "
+        "of every corpus model x (3 fixed + 3 seeded | thorough: 5 fixed + 15 seeded) integer translation vectors in "
+        "+-10^4, and one-node moves of 4 seeded (thorough: every) top-level nodes.  distinct = distinct input tuple; non-trivial = some guard of the code is on its boundary, i.e. NOT (point "
+        "strictly inside the box, source different from point and off both centre lines) for the kernel, resp. the diagram "
+        "has at least one edge or nested box for the parser")
 ASSUMPTIONS = [
     "floats: the model is exact over Q; implementation answers are compared exactly when they are exactly the model's rational, else within 1e-9 (kernel) / 1e-6 (parser)",
     "the atan2-based side choice of Box.__vector_snap_closest is modelled by its sign form; on the model-declared ties (source on a diagonal of the box) any of the four side intersections is accepted",
@@ -356,6 +357,17 @@ def generic_cases(ctx: Ctx) -> list[dict]:
             s = p
         style = rng.choice(STYLES)
         cases.append({"box": [bx, by, bw, bh], "port": rng.random() < 0.3 and style != "oblique", "p": list(p), "s": list(s), "style": style, "gen": "real"})
+    # aimed at a corner up to rounding: both candidate borders are hit within an ulp of their end
+    # (the float code used to find two intersections, or none)
+    for _ in range(ctx.pick(400, 4000)):
+        scale = rng.choice([1.0, 10.0, 1000.0, 1e5])
+        bx, by = rng.uniform(-scale, scale), rng.uniform(-scale, scale)
+        bw, bh = rng.uniform(0.01, 1) * scale, rng.uniform(0.01, 1) * scale
+        cx, cy = rng.choice([(bx, by), (bx + bw, by), (bx, by + bh), (bx + bw, by + bh)])
+        p = (bx + rng.random() * bw, by + rng.random() * bh) if rng.random() < 0.5 else (bx + bw / 2, by + bh / 2)
+        k = rng.choice([0.5, 1, 2, 3, 0.1, 7])
+        s = (cx + k * (cx - p[0]), cy + k * (cy - p[1]))
+        cases.append({"box": [bx, by, bw, bh], "port": False, "p": list(p), "s": list(s), "style": "oblique", "gen": "real-corner"})
     return cases
 
 
@@ -381,7 +393,9 @@ def kernel_random(ctx: Ctx, out: Outcome, diagram) -> None:
             out.traces_validated += 1
         out.case(("snap", tuple(rep["box"]), c["port"], tuple(rep["p"]), tuple(rep["s"]), c["style"]),
                  rep if k % 997 == 0 else None, nontrivial=c["gen"] != "real" or tuple(c["p"]) == tuple(c["s"]))
-    out.extra["random_cases"] = {"dyadic": sum(1 for c in cases if c["gen"].startswith("dyadic")), "real": sum(1 for c in cases if c["gen"] == "real")}
+        out.hit("gen:" + c["gen"])
+    out.extra["random_cases"] = {"dyadic": sum(1 for c in cases if c["gen"].startswith("dyadic")), "real": sum(1 for c in cases if c["gen"] == "real"),
+                                  "real-corner": sum(1 for c in cases if c["gen"] == "real-corner")}
 
 
 def kernel_misc(ctx: Ctx, out: Outcome, diagram) -> None:
@@ -658,6 +672,12 @@ class ParserRig:
         (note connectors carry no source/target on the parsed Edge object)"""
         ids = {n.get(self.C.ATT_XMID): n for n in treedata.iter() if n.get(self.C.ATT_XMID)}
         ends: dict[str, set[str]] = {}
+        # semantic id of a notation node -> its notation id (the uuid of boxes built by the visual factories)
+        aliases: dict[str, set[str]] = {}
+        for i, n in ids.items():
+            if n.get("element"):
+                aliases.setdefault(n.get("element"), set()).add(i)
+        ends["<aliases>"] = aliases  # type: ignore[assignment]
         for e in treedata.iterdescendants("edges"):
             uid = e.get("element") or e.get(self.C.ATT_XMID)
             got = ends.setdefault(uid, set())
@@ -824,7 +844,7 @@ def parser_run(ctx: Ctx, out: Outcome) -> None:
             tops = rig.top_nodes(td)
             ends = rig.edge_ends(td)
             lcs = [lc for _, lc in tops]
-            vecs = vectors_fixed[: ctx.pick(3, 5)] + [(rng.randint(-10000, 10000), rng.randint(-10000, 10000)) for _ in range(ctx.pick(2, 6))]
+            vecs = vectors_fixed[: ctx.pick(3, 5)] + [(rng.randint(-10000, 10000), rng.randint(-10000, 10000)) for _ in range(ctx.pick(3, 15))]
             for v in vecs:
                 stats["translations"] += 1
                 out.case(("translate", rel, d.uuid, v), {"stream": "parser.translate", **where, "v": list(v)} if stats["translations"] == 1 else None, nontrivial)
@@ -849,8 +869,9 @@ def parser_run(ctx: Ctx, out: Outcome) -> None:
                     out.find(sig, f"{rel} {d.name!r} translated by {v}: {what}", {"kind": "sound", **where, "v": list(v)})
             # move one top-level node
             if len(tops) >= 1:
-                for _ in range(ctx.pick(2, 4)):
-                    k = rng.randrange(len(tops))
+                order = list(range(len(tops)))
+                rng.shuffle(order)
+                for k in (order if ctx.thorough else order[:4]):  # thorough: every top-level node once
                     node, lc = tops[k]
                     nid = node.get("element") or node.get(rig.C.ATT_XMID)
                     v = (rng.choice([-250, -40, -7, 13, 90, 400]), rng.choice([-300, -25, 5, 60, 350]))
@@ -876,6 +897,9 @@ def judge_move(base: list[dict], moved: list[dict], nid: str, v, ends: dict | No
     if len(base) != len(moved):
         return f"{len(base) - 1} elements became {len(moved) - 1}"
     boxes = {e["uuid"]: e for e in base if e["t"] == "box"}
+    if nid not in boxes and ends is not None:
+        # visual shapes with a semantic target (representation links) are keyed by their notation id
+        nid = next((x for x in ends.get("<aliases>", {}).get(nid, ()) if x in boxes), nid)
     if nid not in boxes:
         # the node produced no element (skipped by its factory): nothing may change at all
         sub = set()
@@ -894,7 +918,7 @@ def judge_move(base: list[dict], moved: list[dict], nid: str, v, ends: dict | No
         grew = False
         for e in base:
             if e["t"] == "edge" and e["uuid"] not in affected and (
-                    e["src"] in affected or e["tgt"] in affected or (ends or {}).get(e["uuid"], set()) & affected):
+                    e["src"] in affected or e["tgt"] in affected or set((ends or {}).get(e["uuid"], ())) & affected):
                 affected.add(e["uuid"])
                 grew = True
     for a, b in zip(base, moved):
@@ -926,6 +950,11 @@ def run(ctx: Ctx) -> Outcome:
     parser_run(ctx, out)
     out.exhaustive = True  # the integer lattice named in RULE is enumerated completely
     import capellambse.diagram._json_enc as je
+    out.extra["source_fingerprints"] = {
+        **common.source_fingerprint("capellambse/diagram/_diagram.py", ["Box", "Box.vector_snap", "Box.snap_to_parent", "Box.bounds", "Edge.vector_snap", "Edge.bounds", "Diagram.calculate_viewport"]),
+        **common.source_fingerprint("capellambse/diagram/_vector2d.py", ["Vector2D", "line_intersect"]),
+        **common.source_fingerprint("capellambse/aird/_edge_factories.py", ["route_manhattan", "route_tree", "route_oblique", "snap_oblique", "snap_manhattan", "snap_tree"]),
+    }
     out.extra["intround_note"] = {"_intround(-1.2)": je._intround(-1.2), "_intround(1.2)": je._intround(1.2),
                                   "remark": "JSON encoder rounding is not translation-invariant below zero; outside C17's observation point (Diagram objects)"}
     return out
